@@ -7,9 +7,9 @@ TRUST = [
 ]
 
 
-def simple(run, shards_thorough=16, variant="default", **kw):
+def simple(run, shards_thorough=16, variant="default", shards_quick=1, **kw):
     def steps(tier):
-        st = dict(run=run, variant=variant, shards=(shards_thorough if tier == "thorough" else 1))
+        st = dict(run=run, variant=variant, shards=(shards_thorough if tier == "thorough" else shards_quick))
         st.update(kw)
         return [st]
     return steps
@@ -37,4 +37,4 @@ PROPS["C04"] = dict(level="exploration", steps=twin("^TestC04"), needs_twin=True
 PROPS["C12"] = dict(level="exploration", steps=twin("^TestC12"), needs_twin=True, assumptions=TRUST)
 PROPS["C10"] = dict(level="exploration", steps=simple("^TestC10"), assumptions=TRUST)
 PROPS["C11"] = dict(level="exploration", steps=simple("^TestC11"), assumptions=TRUST)
-PROPS["C17"] = dict(level="exploration", steps=simple("^TestC17", variant="bubble"), default_variant="bubble", assumptions=TRUST + ["testing/synctest (Go 1.26.8): 'all goroutines durably blocked' detection is sound for channel operations; goroutines blocked on a mutex or in a syscall are not covered"])
+PROPS["C17"] = dict(level="exploration", steps=simple("^TestC17", variant="bubble", shards_quick=4), default_variant="bubble", assumptions=TRUST + ["testing/synctest (Go 1.26.8): 'all goroutines durably blocked' detection is sound for channel operations; goroutines blocked on a mutex or in a syscall are not covered"])
